@@ -118,6 +118,15 @@ func (ex *Exec) load(st *State, addr Val, t types.Type) Val {
 		// struct element: object ref elem(base, idx)
 		return ex.loadObject(st, app(SRef, "elem", a.Base, a.Idx), t)
 	case GlobalAddr:
+		// sentinel error variables of the standard library: constant, non-nil
+		if a.G.Pkg != nil && a.G.Pkg.Pkg.Path() == "io" && (a.G.Name() == "EOF" || a.G.Name() == "ErrUnexpectedEOF" || a.G.Name() == "ErrShortWrite") {
+			name := "glob$val$io." + a.G.Name()
+			ex.cx.declConst(name, SIface)
+			v := Term{name, SIface}
+			ex.cx.assume(not(eq(v, nilIface())))
+			ex.cx.note("io.%s is treated as a non-nil constant", a.G.Name())
+			return Sc{v}
+		}
 		ref := ex.globalRef(a.G)
 		return ex.loadViaRef(st, ref, t)
 	case Sc:
